@@ -48,6 +48,8 @@ def jobs(tier):
         for kind in FAULTS:
             for version in ((1,) if tier == "quick" and name not in ("all", "comment") else (1, 3)):
                 out.append(("%s.%s.v%d" % (name, kind, version), "job_fault", dict(req=name, kind=kind, version=version)))
+    for kind in FAULTS:
+        out.append(("comment.%s.v1.hardlinked" % kind, "job_fault", dict(req="comment", kind=kind, version=1, linked=True)))
     out.append(("unencodable.v1", "job_unencodable", dict(version=1)))
     out.append(("unencodable.v3", "job_unencodable", dict(version=3)))
     return out
@@ -66,13 +68,15 @@ def _run(w, req):
     w.mod("edit").edit_torrent(MPATH, dict(req))
 
 
-def job_fault(E, req, kind, version, _mutants=None):
+def job_fault(E, req, kind, version, linked=False, _mutants=None):
     kinds = REQS[req]
     base = ew.base_meta(E, version, _force(kinds))
     request = ew.request(E, kinds)
     # twin: fault-free run defines NEW and the number of mutating operations
     fs0 = AFS()
     fs0.add_token(MPATH, BenTok(ben_copy(base)))
+    if linked:
+        fs0.files["/t/second-name.torrent"] = fs0.files[MPATH]
     w0 = World(fs0, mutants=_mutants)
     try:
         _run(w0, request)
@@ -86,6 +90,8 @@ def job_fault(E, req, kind, version, _mutants=None):
         return
     fs = AFS()
     fs.add_token(MPATH, BenTok(ben_copy(base)))
+    if linked:
+        fs.files["/t/second-name.torrent"] = fs.files[MPATH]      # the metafile has a second (hard linked) name
     at = E.int("fault_at", 0, nops)
     fs.fault = FaultPlan(at, kind)
     w = World(fs, mutants=_mutants)
@@ -157,6 +163,8 @@ def replay(params, model, notes, workdir, seed):
     old_bytes = refconc.bencode(base)
     with open(mpath, "wb") as f:
         f.write(old_bytes)
+    if params.get("linked"):
+        os.link(mpath, os.path.join(workdir, "second-name.torrent"))
     mods = cr.real_torrentfile()
     ed = mods["torrentfile.edit"]
     if "req" not in params:
@@ -199,6 +207,10 @@ def replay(params, model, notes, workdir, seed):
             raise OSError(28, "No space left on device", path)
         if kind == "shortret" and name != "write":
             return None
+        if kind in ("enospc", "short") and name not in ("write", "copy-write"):
+            if kind == "enospc":
+                raise OSError(28, "No space left on device", path)
+            raise Died()
         return kind
 
     real_open, real_remove, real_replace, real_rename = builtins.open, os.remove, os.replace, os.rename
@@ -254,6 +266,26 @@ def replay(params, model, notes, workdir, seed):
         point("rename", a)
         return real_rename(a, b)
 
+    import shutil as _sh
+    real_copyfile, real_copy, real_copy2 = _sh.copyfile, _sh.copy, _sh.copy2
+
+    def fake_copyfile(src, dst, **k):
+        # open-for-write (truncate) and fill are two fault points, as in the model
+        point("copy", dst)
+        with real_open(dst, "wb"):
+            pass
+        r = point("copy-write", dst)
+        data = real_open(src, "rb").read()
+        if r in ("enospc", "short"):
+            with real_open(dst, "wb") as f:
+                f.write(data[:len(data) // 2])
+            if r == "enospc":
+                raise OSError(28, "No space left on device", dst)
+            raise Died()
+        with real_open(dst, "wb") as f:
+            f.write(data)
+        return dst
+    _sh.copyfile = _sh.copy = _sh.copy2 = fake_copyfile
     builtins.open, os.remove, os.replace, os.rename = fake_open, fake_remove, fake_replace, fake_rename
     os.unlink = fake_remove
     try:
@@ -266,6 +298,7 @@ def replay(params, model, notes, workdir, seed):
     finally:
         builtins.open, os.remove, os.replace, os.rename = real_open, real_remove, real_replace, real_rename
         os.unlink = real_remove
+        _sh.copyfile, _sh.copy, _sh.copy2 = real_copyfile, real_copy, real_copy2
     if not os.path.exists(mpath):
         return ["C17.complete-after-fault (metafile missing)"]
     got = real_open(mpath, "rb").read()
